@@ -9,11 +9,14 @@ CONSTANTS
   RlSizes = {0, 1, 2, 4}
   SeekMax = 4
   Ops = TRUE
+  Hints = {1, 2}
+  IterSingleLine = TRUE
   Emit = FALSE
   Modes = {"shared", "byname"}
   ClampReadline = TRUE
   PadOdd = TRUE
   SeekFirst = TRUE
+  IterYieldsAll = FALSE
 SPECIFICATION Spec
 INVARIANT TypeOK
 INVARIANT IndexExact
